@@ -117,7 +117,7 @@ class Ctx:
 class Translator:
     def __init__(self, classes, prefix):
         """classes: name -> {"base", "fields": {f: type}, "methods": {m: (ret, args, body)}}"""
-        self.classes = classes; self.prefix = prefix; self.done = {}; self.order = []; self.stack = []
+        self.classes = classes; self.prefix = prefix; self.done = {}; self.order = []; self.stack = []; self.oracles = {}
 
     # ---- class helpers
     def fields(self, cls):
@@ -230,6 +230,23 @@ class Translator:
                     if at == "F": return "(ftrunc A %s)" % a, "Z"
                     return coerce(a, at, "Z"), "Z"
                 raise Refuse("call of %s" % fn)
+            if isinstance(e.func, ast.Attribute) and e.func.attr == "size" and not e.args:
+                a, at = self.expr(e.func.value, cx)
+                if at != "listnat": raise Refuse("size() of %s" % at)
+                return "(length %s)" % a, "nat"
+            if isinstance(e.func, ast.Attribute) and isinstance(e.func.value, ast.Attribute) and isinstance(e.func.value.value, ast.Name) and e.func.value.value.id == "self":
+                # a call into another object held in an attribute (self.rhs.evaluate(...)): an ORACLE, a section variable of the generated file
+                fld = e.func.value.attr; key = "%s_%s" % (fld, e.func.attr)
+                if key not in self.oracles: raise Refuse("call of self.%s.%s" % (fld, e.func.attr))
+                want = self.oracles[key]; args = []
+                if len(want) != len(e.args): raise Refuse("arity of self.%s.%s" % (fld, e.func.attr))
+                for wt, ae in zip(want, e.args):
+                    a, at = self.expr(ae, cx)
+                    if wt == "listF":
+                        if at != "listF": raise Refuse("pointer argument")
+                        args.append(a)
+                    else: args.append(coerce(a, at, wt))
+                return "(%s %s)" % (key, " ".join(args)), "F"
             if isinstance(e.func, ast.Attribute) and isinstance(e.func.value, ast.Name) and e.func.value.id == "self":
                 meth = e.func.attr; owner = self.resolve(cx.cls, meth)
                 ret, margs, _ = self.classes[owner]["methods"][meth]
@@ -425,16 +442,16 @@ class Translator:
         for a, t in args: cx.types[a] = t
         cx.types["self"] = "obj:" + cls
         cx.types.update(locs)
-        outs = [a for a in self.assigned(tree.body) if dict(args).get(a) == "listF"]
+        outs = [a for a, t_ in args if t_ == "listF" and a in self.assigned(tree.body)]
         if outs:
-            if ret != "void" or len(outs) != 1 or "self" in self.assigned(tree.body): raise Refuse("%s.%s: output array next to other effects" % (owner, meth))
-            cx.final = outs[0]
+            if ret != "void" or "self" in self.assigned(tree.body): raise Refuse("%s.%s: output array next to other effects" % (owner, meth))
+            cx.final = self.pack(outs)
         lines = self.block(tree.body, cx, 1)
         name = self.fname(cls, meth)
         coqty = {"F": "F", "Z": "Z", "nat": "nat", "listF": "list F", "void": "%s_obj" % cls, "mat": "list (list F)"}
         sig = " ".join("(%s : %s)" % (a, coqty[t]) for a, t in args)
         rett = coqty[ret] if ret != "obj" else "%s_obj" % cls
-        if outs: rett = "list F"
+        if outs: rett = " * ".join(["list F"] * len(outs))
         txt = "(* %s.%s%s *)\nDefinition %s (A : Arith F) (self : %s_obj) %s : %s :=\n%s.\n" % (
             owner, meth, "" if owner == cls else " (inherited by %s)" % cls, name, cls, sig, rett, "\n".join(lines))
         self.stack.pop(); self.done[key] = name; self.order.append(txt)
